@@ -6,13 +6,13 @@ import SoxrModel.Conc.Clips
 Model: `Soxr.Conc.Clips` (each channel's `p->clips += n_i` is an action of some thread; any number of channels/threads;
 arbitrary interleaving).
 
-* With an **atomic** read-modify-write the total is exact under every interleaving (`atomic_total_exact`), across any
-  number of successive parallel regions (`atomic_rounds_exact`), and equals what the sequential loop computes
-  (`sequential_total`).
-* With the pinned **non-atomic** `p->clips +=` the clause is false under threads: a two-channel lost update is reachable
-  (`nonatomic_lost_update_reachable`, `not_nonatomic_exact`; defect F8).  What still holds is one-sided:
-  the counter never exceeds the exact sum (`nonatomic_never_overcounts`) — the falsifier uses it as its oracle for "any other
-  discrepancy".
+* The code as it is (`size_t clips = interleave(…); #pragma omp atomic  p->clips += clips;`, fix of F8): the addition is ONE
+  atomic step, the total is exact under every interleaving (`atomic_total_exact`), across any number of successive parallel
+  regions (`atomic_rounds_exact`), and equals what the sequential loop computes (`sequential_total`).  The real-code
+  falsifier (`checks/conclib.clips_threads`) now reports ANY lost count as a violation.
+* Historical, why the atomic is needed: with the former plain `p->clips +=` (a load followed by a store) the clause was false
+  under threads: a two-channel lost update is reachable (`nonatomic_lost_update_reachable`, `not_nonatomic_exact`; defect
+  F8, fixed); what held was one-sided, the counter never exceeded the exact sum (`nonatomic_never_overcounts`).
 -/
 namespace Soxr.C06Threads
 open Soxr.Conc.Clips
@@ -54,7 +54,7 @@ theorem sequential_total (t0 : Nat) (cs : List Nat) : (arun cs { total := t0, to
   | nil => intro s; simp [arun]
   | cons c cs ih => intro s; simp only [arun, ih, List.sum_cons]; omega
 
-/-- NEGATION for the pinned non-atomic `p->clips +=`: two channels that each clipped once, both load 0, both store 1 -/
+/-- HISTORICAL (code before the fix of F8) — negation for the non-atomic `p->clips +=`: two channels that each clipped once, both load 0, both store 1 -/
 theorem nonatomic_lost_update_reachable :
     ∃ s, NReach (ninit 0 [1, 1]) s ∧ s.todo = [] ∧ s.loaded = [] ∧ s.total = 1 := by
   refine ⟨{ total := 1, todo := [], loaded := [] }, ?_, rfl, rfl, rfl⟩
